@@ -291,6 +291,18 @@ OPS = {
     "select": lambda t, a, b: t.select(_dim(t, a), b % t.shape[_dim(t, a)]),
     "slice0": lambda t, a, b: t[(a % t.shape[0]) :],
     "slice_step": lambda t, a, b: t[:: 1 + a % 3],
+    # the same dimension spelled with a negative index (the packed dimension is the first one, i.e. -ndim)
+    "narrow_first_neg": lambda t, a, b: torch.narrow(t, -t.ndim, a % t.shape[0], 1 + b % (t.shape[0] - a % t.shape[0])),
+    "narrow_first": lambda t, a, b: torch.narrow(t, 0, a % t.shape[0], 1 + b % (t.shape[0] - a % t.shape[0])),
+    "narrow_last": lambda t, a, b: torch.narrow(t, [-1, t.ndim - 1][a % 2], b % t.shape[-1], 1),
+    "select_neg": lambda t, a, b: t.select(-t.ndim, b % t.shape[0]),
+    "slice_neg_index": lambda t, a, b: t[-(1 + a % t.shape[0]) :],
+    "chunk_neg": lambda t, a, b: torch.chunk(t, 2, dim=-t.ndim)[-1],
+    "flip_neg": lambda t, a, b: t.flip(-t.ndim),
+    "sum_neg": lambda t, a, b: t.sum(-t.ndim),
+    "transpose_neg": lambda t, a, b: t.transpose(-t.ndim, -1),
+    "cat_neg": lambda t, a, b: torch.cat([t, t], dim=-t.ndim),
+    "index_select_neg": lambda t, a, b: t.index_select(-t.ndim, torch.tensor([b % t.shape[0], a % t.shape[0]])),
     "index": lambda t, a, b: t[torch.tensor([a % t.shape[0], b % t.shape[0]])],
     "t": lambda t, a, b: t.transpose(0, -1),
     "permute": lambda t, a, b: t.permute(*reversed(range(t.ndim))),
